@@ -417,6 +417,8 @@ func (w *World) Visit(h *StoreH, name string, asc bool, api string, tid int, wv 
 	td := w.trueDepths(h, c)
 	res := []Ev{}
 	var err error
+	evictIn := c != nil && !h.RO && w.rng.Intn(4) == 0
+	ev["evictin"] = evictIn
 	add := func(i *gkvlite.Item, d int64) bool {
 		e := w.itemEv(name, i)
 		e["d"] = d
@@ -427,6 +429,10 @@ func (w *World) Visit(h *StoreH, name string, asc bool, api string, tid int, wv 
 			}
 		}
 		res = append(res, e)
+		if evictIn && w.rng.Intn(2) == 0 {
+			// what CopyTo's own visitor does: drop cached items in the middle of the visit
+			c.EvictSomeItems()
+		}
 		return stop == 0 || len(res) < stop
 	}
 	w.begin(h, ft)
